@@ -1,6 +1,11 @@
 // corpus.cpp — see corpus.hpp
 #include "corpus.hpp"
 #include "hdrmap.hpp"
+#include <cerrno>
+#include <fcntl.h>
+#include <sys/resource.h>
+#include <sys/wait.h>
+#include <unistd.h>
 
 std::string Recipe::key() const {
   return fmt("ch=%d rate=%ld q=%.4f mode=%d nom=%ld n=%lld sig=%d seed=%llu nc=%d bs64=%d cut=%d mute=%d trim=%d tk=%d m3=%d cr=%d", ch, rate, q, mode, nominal, (long long)n, sig, (unsigned long long)seed, ncomm, bs64, cut, mute, trim, tk, modes3, craft);
@@ -169,14 +174,39 @@ static void encode_link(Link &l) {
   l.ok = true;
 }
 
+extern "C" void __real__exit(int) __attribute__((noreturn));
+bool g_in_exec = false, g_ref_crash_seen = false; Recipe g_ref_crash_recipe;
+static void ref_crashed(Link &l) {
+  g_ref_crash_seen = true; g_ref_crash_recipe = l.r;
+  if (g_in_exec) { std::vector<std::vector<float>> pcm; std::vector<int> ch; vorbis_info vi; vorbis_comment vc; vorbis_info_init(&vi); vorbis_comment_init(&vc);   // again, unguarded: the failure belongs to this run
+    for (int i = 0; i < 3 && i < (int)l.hdr.size(); i++) { ogg_packet op = to_op(l.hdr[(size_t)i]); vorbis_synthesis_headerin(&vi, &vc, &op); } vorbis_comment_clear(&vc); vorbis_info_clear(&vi);
+    decode_packets(l.hdr, l.audio, 0, pcm, &ch); }
+}
+static bool probe_ref(const Link &l) {
+  fflush(stdout); fflush(stderr);
+  pid_t pid = fork();
+  if (pid < 0) return true;
+  if (pid == 0) {
+    int nul = open("/dev/null", O_WRONLY); if (nul >= 0) { dup2(nul, 2); dup2(nul, 1); }
+    struct rlimit rl = {30, 30}; setrlimit(RLIMIT_CPU, &rl);
+    vorbis_info vi; vorbis_comment vc; vorbis_info_init(&vi); vorbis_comment_init(&vc);
+    for (int i = 0; i < 3 && i < (int)l.hdr.size(); i++) { ogg_packet op = to_op(l.hdr[(size_t)i]); vorbis_synthesis_headerin(&vi, &vc, &op); }
+    vorbis_comment_clear(&vc); vorbis_info_clear(&vi);
+    std::vector<std::vector<float>> pcm; std::vector<int> ch; decode_packets(l.hdr, l.audio, 0, pcm, &ch);
+    __real__exit(0);
+  }
+  int st = 0; while (waitpid(pid, &st, 0) < 0 && errno == EINTR) {}
+  return WIFEXITED(st) && WEXITSTATUS(st) == 0;
+}
 std::shared_ptr<Link> get_link(const Recipe &r) {
   std::string k = r.key();
   auto it = g_cache.find(k);
-  if (it != g_cache.end()) return it->second;
+  if (it != g_cache.end()) { if (it->second->ref_crash) ref_crashed(*it->second); return it->second; }
   bool was = g_sim.alloc_active; g_sim.alloc_active = false;   // corpus production is outside the ledger window
   auto l = std::make_shared<Link>(); l->r = r;
   if (r.craft) craft_link(*l); else encode_link(*l);
-  if (l->ok) {
+  if (l->ok && !probe_ref(*l)) { l->ref_crash = true; l->ref_err = -99; g_stats.inc("corpus.reference_decode_died_in_probe"); }
+  if (l->ok && !l->ref_crash) {
     l->ref_err = decode_packets(l->hdr, l->audio, 0, l->pcm, &l->chunk);
     l->len = l->pcm.empty() ? 0 : (int64_t)l->pcm[0].size();
     // comments as the decoder sees them
@@ -194,6 +224,7 @@ std::shared_ptr<Link> get_link(const Recipe &r) {
   cache_bytes += lb;
   g_cache[k] = l;
   g_stats.inc("corpus.links_encoded");
+  if (l->ref_crash) ref_crashed(*l);
   return l;
 }
 void ensure_half(Link &l) {
